@@ -382,7 +382,8 @@ def extra_oracle(s, obs, flavour):
 
 
 def project(obs, flavour):
-    """only what the property constrains: the decoded message list (names, and the name / message / details values)"""
+    """only what the property constrains: the decoded message list (kinds, and the name / message / details values whatever the
+    attribute order; duration, other attributes and text outside messages are dropped)"""
     t = obs.split()
     try:
         if t and t[0] == ":parsed":
@@ -399,7 +400,7 @@ def project(obs, flavour):
             except ValueError:
                 return "RAW REJECT"
         msgs = decode_stream(unb(t[0]))
-        return repr([(n, [(k, v) for k, v in a if k in (b"name", b"message", b"details")]) for n, a in msgs])
+        return repr([(n, sorted((k, v) for k, v in a if k in (b"name", b"message", b"details"))) for n, a in msgs])
     except ValueError:
         return "REJECT"
     except Exception:
@@ -449,8 +450,16 @@ def shrink(s):
                     yield ser(dur, [((c,) + x[1:]) if x[0] == g else x for x in tests])
                 else:
                     tt = list(t); tt[fld] = c
+                    if fld == 2 and any(st[1] == f for st in body):
+                        # keep "failure in the test's own file": shorten the path in the statements too
+                        tt[5] = [(st[0], c, st[2], st[3]) if st[1] == f else st for st in body]
+                        yield ser(dur, tests[:i] + [tuple(tt)] + tests[i + 1:])
+                        tt = list(t); tt[fld] = c
                     yield ser(dur, tests[:i] + [tuple(tt)] + tests[i + 1:])
         if l > 1:
+            if any(st[2] < l for st in body):
+                # keep "failure above the test's line": those failures move to line 0
+                yield ser(dur, tests[:i] + [(g, n, f, 1, ign, [(st[0], st[1], 0, st[3]) if st[2] < l else st for st in body])] + tests[i + 1:])
             yield ser(dur, tests[:i] + [(g, n, f, 1, ign, body)] + tests[i + 1:])
         for j, st in enumerate(body):
             for fld in (1, 3):
@@ -462,7 +471,19 @@ def shrink(s):
                 yield ser(dur, tests[:i] + [(g, n, f, l, ign, body[:j] + [tuple(ss)] + body[j + 1:])] + tests[i + 1:])
 
 
-LEVEL_TEXT = ("Machine-checked (Coq) theorems over an executable model of TeamCityTestOutput driven by the callback order of TestRegistry::runAllTests.")
-LEVEL_NOTE = ("Trusted: Coq kernel, extraction, harness, generators, the Python decoder.")
+LEVEL_TEXT = ("Machine-checked (Coq) theorems over an executable model of TeamCityTestOutput (currtest_, currGroup_, groupOpen_, printEscaped, the pieces "
+              "of printFailure) driven by the callback order of TestRegistry::runAllTests: decoding printEscaped's output by the TeamCity rules returns the "
+              "original text and the escaped text has no unescaped ' [ ] CR LF, for all byte strings; a service-message parser written in Coq (strict: raw "
+              "special characters, unknown escapes, duplicate attributes, text after ], marker inside a line are rejected) run on the stream of any run - any "
+              "groups / pass / fail / ignore pattern, any byte strings as names, paths and messages, followed by any summary text - returns exactly "
+              "messages_of(run); messages_of is balanced (suite and test brackets paired by name, ignored / failed messages name the open test) and faithful "
+              "(testIgnored iff ignored, one testFailed per failure in order with text and locations decoded to the originals); the two pre-repair behaviours "
+              "(D15) are refuted. Tied to the code by a differential run of the extracted model against a real TeamCityTestOutput (printBuffer captured), "
+              "judged by the extracted spec and independently by a regular-expression decoder written from the TeamCity documentation; the two decoders are "
+              "also compared on mutated streams.")
+LEVEL_NOTE = ("Trusted: Coq kernel, extraction, harness, generators, the Python decoder. Modelled not verified: the C++ itself; StringFrom(size_t) is "
+              "modelled as decimal digits; the clock is scripted by the harness. Not covered: text printed by test bodies (copied raw into the stream), the "
+              "TeamCity escapes |x |l |p |0xNNNN and the single-value message form (never written; both decoders reject them), filters / repeated runs / "
+              "shuffling (callback order is that of an unfiltered registry), other TestOutput classes.")
 TECHNIQUE = "Coq proof over hand-written executable model (writer + service-message parser round trip) + extracted-model/implementation correspondence check with an independent decoder as second judge"
-READY = False
+READY = True
